@@ -34,47 +34,7 @@ impl<const N: usize> Rib for RibbonController<N> {
     }
 }
 
-pub const RATES: [u32; 24] = [
-    100, 250, 500, 999, 1000, 1999, 2000, 4000, 8000, 10_000, 22_050, 44_100, 48_000, 96_000, 176_400, 192_000, 150, 750, 1500, 3000, 6000, 16_000, 32_000, 88_200,
-];
-
-macro_rules! mk {
-    ($rate:expr, $sp:expr, $dr:expr, $pu:expr) => {{
-        const CAP: usize = sample_rate_to_capacity($rate);
-        let r: Box<dyn Rib> = Box::new(RibbonController::<CAP>::new($rate as f32, $sp, $dr, $pu));
-        (r, CAP)
-    }};
-}
-
-/// a controller for RATES[idx] with the buffer sized by the provided helper
-pub fn make(idx: usize, sp: f32, dr: f32, pu: f32) -> (Box<dyn Rib>, usize) {
-    match idx % RATES.len() {
-        0 => mk!(100, sp, dr, pu),
-        1 => mk!(250, sp, dr, pu),
-        2 => mk!(500, sp, dr, pu),
-        3 => mk!(999, sp, dr, pu),
-        4 => mk!(1000, sp, dr, pu),
-        5 => mk!(1999, sp, dr, pu),
-        6 => mk!(2000, sp, dr, pu),
-        7 => mk!(4000, sp, dr, pu),
-        8 => mk!(8000, sp, dr, pu),
-        9 => mk!(10_000, sp, dr, pu),
-        10 => mk!(22_050, sp, dr, pu),
-        11 => mk!(44_100, sp, dr, pu),
-        12 => mk!(48_000, sp, dr, pu),
-        13 => mk!(96_000, sp, dr, pu),
-        14 => mk!(176_400, sp, dr, pu),
-        15 => mk!(192_000, sp, dr, pu),
-        16 => mk!(150, sp, dr, pu),
-        17 => mk!(750, sp, dr, pu),
-        18 => mk!(1500, sp, dr, pu),
-        19 => mk!(3000, sp, dr, pu),
-        20 => mk!(6000, sp, dr, pu),
-        21 => mk!(16_000, sp, dr, pu),
-        22 => mk!(32_000, sp, dr, pu),
-        _ => mk!(88_200, sp, dr, pu),
-    }
-}
+pub use crate::ribbon_rates::{make, RATES};
 
 pub const SOFTPOTS: [f32; 4] = [5_000.0, 10_000.0, 20_000.0, 100_000.0];
 
@@ -117,7 +77,7 @@ pub struct Seg {
 
 #[derive(Debug, Clone, Serialize, Deserialize, PartialEq)]
 pub struct RibbonCase {
-    pub rate_idx: u8,
+    pub rate_idx: u16,
     pub softpot_idx: u8,
     /// dropper = 100 + frac * (softpot/5 - 100)
     pub dropper_frac: f32,
